@@ -28,7 +28,22 @@ CONFIGS = {
     "broker-stat": ["-p", "aldrin-broker", "--lib", "--features", "statistics"],
     "broker-intro": ["-p", "aldrin-broker", "--lib", "--features", "introspection"],
     "client-none": ["-p", "aldrin", "--lib"],
+    # narrow configurations used by the self-test (one mutated scratch copy per run)
+    "broker-all": ["-p", "aldrin-broker", "--lib", "--all-features"],
+    "core-all": ["-p", "aldrin-core", "--lib", "--all-features"],
+    "client-all": ["-p", "aldrin", "-p", "aldrin-broker", "--lib", "--all-features"],
 }
+
+NARROW = {"C02": "broker-all", "C03": "broker-all", "C04": "broker-all", "C05": "broker-all", "C09": "client-all", "C10": "broker-all", "C11": "client-all",
+          "C01": "core-all", "C07": "core-all", "C08": "core-all", "C13": "core-all", "C20": "core-all", "C06": "client-all", "C12": "client-all"}
+
+
+def config_for(prop):
+    """the self-test analyses one mutated scratch copy per run and only needs the crates the
+    property's rules read; the registered checks always use the whole-workspace extraction"""
+    if os.environ.get("VERIF_SELFTEST") and prop in NARROW:
+        return NARROW[prop]
+    return "ws"
 
 
 def tree_hash(repo=None):
@@ -110,7 +125,7 @@ def ensure_facts(config="ws", repo=None, log=None):
         # Persistent target dir: third-party dependencies are reused, but every workspace member is
         # forced through the driver again by deleting its fingerprints (cargo's freshness cache
         # would otherwise skip the wrapper and no facts would be written).
-        target = os.path.join(CACHE, "target-" + ("ws" if config == "ws" else "cfg"))
+        target = os.path.join(CACHE, "target-" + ("ws" if config in ("ws", "broker-all", "core-all", "client-all") else "cfg"))
         fp = os.path.join(target, "debug", ".fingerprint")
         if os.path.isdir(fp):
             members = workspace_packages(repo)
@@ -221,9 +236,11 @@ def load_known():
 
 def finish(rep, checker_cmd):
     known = load_known()
-    vio_dir = os.path.join(VERIF, "violations")
+    selftest = bool(os.environ.get("VERIF_SELFTEST"))
+    vio_dir = os.path.join(CACHE, "selftest-violations") if selftest else os.path.join(VERIF, "violations")
+    ev_dir = os.path.join(CACHE, "selftest-evidence") if selftest else os.path.join(VERIF, "evidence")
     os.makedirs(vio_dir, exist_ok=True)
-    os.makedirs(os.path.join(VERIF, "evidence"), exist_ok=True)
+    os.makedirs(ev_dir, exist_ok=True)
     real = []
     for v in rep.violations:
         if v["key"] in known and known[v["key"]][0] == rep.prop:
@@ -263,7 +280,7 @@ def finish(rep, checker_cmd):
         "wall_s": round(time.time() - rep.t0, 2),
         "violations": len(real),
     }
-    with open(os.path.join(VERIF, "evidence", rep.prop + ".json"), "w") as f:
+    with open(os.path.join(ev_dir, rep.prop + ".json"), "w") as f:
         json.dump(ev, f, indent=1, default=str)
     print("%s tier=%s obligations=%d discharged=%d violations=%d known=%d wall=%.1fs" % (
         rep.prop, rep.tier, rep.obligations, rep.discharged, len(real), len(rep.violations) - len(real), time.time() - rep.t0))
